@@ -229,6 +229,40 @@ def check_cfg(ctx, pg, cfg, renderings, sfs=True):
         compare(ctx, cfg, r, ref, res, axis)
 
 
+def shared_rewards(ctx, pg, cfg, r, rng, item=None):
+    """the SAME reward objects (one DemeReward per name, created once) used on several Coalescents that list the populations in
+    different orders: a reward is attached to the NAME, whatever object it was evaluated on before"""
+    import phasegen.rewards as R
+    nm = r['names']
+    names = list(cfg['n'])
+    if len(names) < 2:
+        return
+    prods = {p: R.ProductReward([R.TreeHeightReward(), R.DemeReward(nm[p])]) for p in names}
+    for step in range(3):
+        r2 = dict(r)
+        r2['n_order'] = names[:]; rng.shuffle(r2['n_order'])
+        r2['size_order'] = names[:]; rng.shuffle(r2['size_order'])
+        unsampled = [p for p in names if cfg['n'][p] == 0]
+        r2['omit'] = [p for p in unsampled if rng.random() < 0.5]
+        with C.LogCapture() as lc:
+            coal = build(pg, cfg, r2)
+            got = {p: float(coal.moment(1, (prods[p],))) for p in names}
+            want = {p: float(coal.tree_height.demes[nm[p]].mean) for p in names}
+            axis = list(coal.lineage_config.pop_names)
+        if lc.records:
+            ctx.count('warned'); return
+        ctx.count('shared-reward-objects')
+        scale = sum(abs(v) for v in want.values())
+        for p in names:
+            if abs(got[p] - want[p]) > REL * max(abs(got[p]), abs(want[p])) + 1e-12 * max(scale, 1e-300):
+                ctx.violation('named:shared-reward-object', item=item, cfg=cfg, rendering=r2, deme=nm[p], deme_axis=axis, use=step, expected=want[p],
+                              observed=got[p], kwargs=build_kwargs(cfg, r2),
+                              oracle='tree_height.demes[name].mean of the same Coalescent (rewards built afresh by the library); '
+                                     'observed = Coalescent.moment(1, (ProductReward([TreeHeightReward(), DemeReward(name)]),)) with reward '
+                                     'objects that were created once and already used on Coalescents with another listing order')
+                return
+
+
 def one(ctx, item):
     pg = C.import_phasegen()
     if isinstance(item, str) and item.startswith('hash'):
@@ -237,6 +271,8 @@ def one(ctx, item):
     cfg = make_cfg(rng, ctx.quick)
     rs = [random_rendering(cfg, rng) for _ in range(4 if ctx.quick else 6)]
     check_cfg(ctx, pg, cfg, rs, sfs=True)
+    if rng.random() < 0.5:
+        shared_rewards(ctx, pg, cfg, rs[0], rng, item)
 
 
 # ----------------------------------------------------------------------------------------- process clause
@@ -381,6 +417,9 @@ def _rendering_from_json(r):
 
 
 def replay(ctx, payload):
+    if payload.get('signature') == 'named:shared-reward-object':
+        ctx.seed = payload['seed']            # the scenario (and the order in which the shared objects are used) is a function of (seed, item)
+        return one(ctx, payload['item'])
     pg = C.import_phasegen()
     if payload['signature'].startswith('hashseed'):
         sweep_cfg(ctx, payload['script_kwargs'], payload['hash_seeds'], 'replay')
